@@ -94,6 +94,7 @@ def run(ctx):
         elif a != b:
             ctx.violation("the same call gives a different result in another process / after a different call history", S.small_req(s), expected=numeric(a), observed=numeric(b))
     SC.corr_sample(ctx, ss[: (30 if ctx.quick else 200)])
+    SC.nolog_agreement(ctx, ss[:: 3], k=20)     # print_debug_info in the build where it means println!
     # settings combinations
     sreqs, sinfo = [], []
     nset = 8 if ctx.quick else 40
@@ -144,6 +145,31 @@ def run(ctx):
                           expected=numeric(base), observed=numeric(a))
         if (a.get("meta") is not None) != meta and a.get("status") == "ok":
             ctx.violation("metadata presence does not follow return_metadata", S.small_req(ss[si]), observed=meta)
+    # an EXACTLY singular L matrix (a signature with a zero column: legal input, reported as ZeroDet): whichever error is reported, it is the
+    # same for all four (print_debug_info, return_metadata) combinations of one tolerance
+    zreqs, zinfo = [], []
+    for si, s in enumerate(ss[: (6 if ctx.quick else 30)]):
+        if s["req"].get("sig") and len(s["case"]["edges"]) >= 2:
+            for tol in (None, 1e-6, 0.0, 1e300):
+                for dbg in (False, True):
+                    for meta in (False, True):
+                        r = dict(s["req"], sig=[list(row) + [0] for row in s["req"]["sig"]], debug=dbg, meta=meta)
+                        r.pop("tol", None)
+                        if tol is not None:
+                            r["tol"] = f2b(tol)
+                        zreqs.append(r); zinfo.append((si, tol, dbg, meta))
+    zfirst = {}
+    for (si, tol, dbg, meta), a in zip(zinfo, run_harness(zreqs)):
+        ctx.evaluations += 1; ctx.count(f"singular_signature.{a.get('status')}")
+        if a.get("status") == "panic":
+            continue       # (an over-wide signature may be rejected by a panic: the same in every combination is all that is asked here)
+        key = (si, tol)
+        if key not in zfirst:
+            zfirst[key] = a
+        elif a.get("status") != zfirst[key].get("status"):
+            ctx.violation(f"exactly singular L, stability_test={tol}: the reported outcome depends on (print_debug_info={dbg}, return_metadata={meta}): "
+                          f"{a.get('status')} vs {zfirst[key].get('status')}", dict(S.small_req(ss[si]), sig="signature + zero column", tol=tol, debug=dbg, meta=meta),
+                          expected=zfirst[key].get("status"), observed=a.get("status"))
     # threads on one shared sampler
     treqs = []
     for s in ss[: (4 if ctx.quick else 16)]:
@@ -164,6 +190,16 @@ def run(ctx):
     nr = 10 if ctx.quick else 60
     pick = [s for s in ss if s["case"]["D"] % 2 == 1 and s["routing"]["L"] >= 2][: nr // 2]
     pick += [s for s in ss if s not in pick][: nr - len(pick)]
+    # samplers whose OVERALL degree of divergence is negative (the full graph is exempt from the divergence check, so they can be built):
+    # every sample fails in the Gamma step - after exactly get_dimension() numbers have been drawn, like on the x-space path
+    from .. import oracle as O_
+    negs = []
+    for edges, w, D in (([(0, 1), (1, 2), (2, 0)], [0.6, 0.6, 0.6], 4), ([(0, 1), (0, 1)], [0.7, 0.7], 3), ([(0, 1), (1, 2), (2, 0)], [0.9, 0.8, 0.9], 6)):
+        ext = sorted(set(v for e in edges for v in e)); massive = [False] * len(edges)
+        dod, Lf, table = O_.table_oracle(edges, w, massive, ext, D)
+        if dod < 0 and not O_.divergent_subsets(table):
+            negs.append(dict(edges=edges, weights=w, massive=massive, ext=ext, D=D, table=table, dod=dod, loops=Lf, accepted=True, name="negative_dod"))
+    pick += S.samples_for_cases(ctx, negs, 1)
     for s in pick:
         dim = len(s["req"]["x"])
         ks = [rng.getrandbits(53) for _ in range(dim)]
